@@ -14,6 +14,13 @@ except ImportError:
     from taskgroup import TaskGroup as AsyncioTaskGroup  # type: ignore
 
 
+DISCONNECT_MESSAGES = {"http.disconnect", "websocket.disconnect"}
+
+
+def _is_disconnect(message: Any) -> bool:
+    return isinstance(message, dict) and message.get("type") in DISCONNECT_MESSAGES
+
+
 async def _handle(
     app: AppWrapper,
     config: Config,
@@ -45,7 +52,31 @@ class TaskGroup:
         scope: Scope,
         send: Callable[[Optional[ASGISendEvent]], Awaitable[None]],
     ) -> Callable[[ASGIReceiveEvent], Awaitable[None]]:
-        app_queue: asyncio.Queue[ASGIReceiveEvent] = asyncio.Queue(config.max_app_queue_size)
+        # The queue is bounded for everything but the final (disconnect)
+        # message: that one may be put from within the app's own send
+        # call, where waiting for the app to make room would wait for
+        # ever, and nothing may follow it.
+        app_queue: asyncio.Queue[ASGIReceiveEvent] = asyncio.Queue()
+        slots = asyncio.Semaphore(config.max_app_queue_size)
+        disconnected = False
+
+        async def _put(message: ASGIReceiveEvent) -> None:
+            nonlocal disconnected
+            if _is_disconnect(message):
+                disconnected = True
+            else:
+                waited = slots.locked()
+                await slots.acquire()
+                if waited and disconnected:
+                    slots.release()
+                    return  # Overtaken by the disconnect whilst waiting
+            app_queue.put_nowait(message)
+
+        async def _get() -> ASGIReceiveEvent:
+            message = await app_queue.get()
+            if not _is_disconnect(message):
+                slots.release()
+            return message
 
         def _call_soon(func: Callable, *args: Any) -> Any:
             future = asyncio.run_coroutine_threadsafe(func(*args), self._loop)
@@ -56,12 +87,12 @@ class TaskGroup:
             app,
             config,
             scope,
-            app_queue.get,
+            _get,
             send,
             partial(self._loop.run_in_executor, None),
             _call_soon,
         )
-        return app_queue.put
+        return _put
 
     def spawn(self, func: Callable, *args: Any) -> None:
         self._task_group.create_task(func(*args))
